@@ -128,6 +128,10 @@ def eveK (pn pd xn xd : Nat) : Nat → Nat → Nat
   | 0, k => k
   | fuel + 1, k => if xn * pd ^ (k + 1) ≤ pn ^ (k + 1) * xd then eveK pn pd xn xd fuel (k + 1) else k
 
+/-- the same for any base `p ≠ 1`: for `p > 1`, `log_p x = log_{1/p} (1/x)`, so numerators and denominators swap -/
+def eveKAny (pn pd xn xd fuel : Nat) : Nat :=
+  if pn < pd then eveK pn pd xn xd fuel 0 else eveK pd pn xd xn fuel 0
+
 /-- `double_times = max(double_times, 0); n_batches['train'] = min(n_0 * 2 ** double_times, n_max)` with
 `n_max = n_max or inf` -/
 def eveBatches (n0 : Nat) (nmax : Option Nat) (dt : Int) : Nat :=
@@ -233,7 +237,7 @@ def Action.run (idx : Nat) (s : Solver) : Action → Solver × Action
       -- v ≤ 0 raises in the code (log of a non-positive number); outside the property's quantifier
       if v ≤ 0 then (s.logged idx, .eve c)
       else
-        let k := eveK c.pn c.pd (v.toNat * c.v0d) (c.den * c.v0n) eveFuel 0
+        let k := eveKAny c.pn c.pd (v.toNat * c.v0d) (c.den * c.v0n) eveFuel
         ({ s.logged idx with nTrain := eveBatches c.n0 c.nmax k }, .eve c)
     | [] => (s.logged idx, .eve c)
 
